@@ -472,7 +472,10 @@ Definition acquire (s : st) (c : N) : option st :=
     match cl with
     | CConnect cfg =>
       if 1 <=? cst_n (k_cs (k s)) then Some (finish_call s c RetAlreadyConnecting)
-      else Some (set_api (set_k s (k_set_cfg (k s) cfg)) (Some (c, AConnDial)))
+      else match k_ppc (k s) with
+           | PNone => Some (set_api (set_k s (k_set_cfg (k s) cfg)) (Some (c, AConnDial)))
+           | _ => None            (* state initialized: no processor has been started on this Client *)
+           end
     | CReq r =>
       if negb (is_connected (k_cs (k s))) then Some (finish_call s c RetNotConnected)
       else if req_qos0 r then Some (set_api s (Some (c, AReqPut r 0)))
